@@ -169,12 +169,12 @@ Definition awaited (n : node) : list nat :=
 (** every observed want-list holds only keys that an open request waits for ("after the request
     completes or its context is cancelled the want-list no longer contains those CIDs"), at every
     point at which the harness looked, ticks included *)
-Fixpoint obs_within (n : node) (eos : list (nev * option (list nat))) : bool :=
+Fixpoint obs_within (late : list nat) (n : node) (eos : list (nev * option (list nat))) : bool :=
   match eos with
   | [] => true
   | (e, o) :: rest =>
       let n' := nstep flags_off n e in
-      match o with Some l => subsetb l (awaited n') | None => true end && obs_within n' rest
+      match o with Some l => subsetb (ndiff l late) (awaited n') | None => true end && obs_within late n' rest
   end.
 
 (** ---------- cases ---------- *)
@@ -211,10 +211,16 @@ Inductive case :=
 (* several requests on one real PubSub driven by AsyncGetBlocks; [evs] in the order executed *)
 | CUnit (reqs : list (list nat)) (evs : list uev) (obs : list uobs)
 (* one node driven through a sequenced history; where the harness waited for the node to
-   settle, the want-list it then observed; and what each request delivered in the end *)
-| CNode (evs : list (nev * option (list nat))) (outs : list (list nat))
+   settle, the want-list it then observed; what each request delivered in the end; and [late]: keys
+   that the harness saw come back as want-BLOCKs (GetWantBlocks) after they had been received or
+   cancelled - the want sender's late want of C37-2; a re-broadcast want-have is not one of these *)
+| CNode (evs : list (nev * option (list nat))) (outs : list (list nat)) (late : list nat)
 (* a virtual network run: requests with their outcome, final want-list of every node *)
-| CSys (reqs : list sreq) (final_wl : list (list nat)).
+| CSys (reqs : list sreq) (final_wl : list (list nat))
+(* a lagging reader: a request for [keys0] whose output channel is not read while [pubs] are published
+   (it is drained afterwards unless [cancelled0]); meanwhile the [others] (keys, delivered) - requests on
+   the same PubSub / node whose keys are all published and which are read with a deadline - must be served *)
+| CLag (keys0 pubs out0 : list nat) (cancelled0 : bool) (others : list (list nat * list nat)).
 
 Definition ureq_eqb (r : req) (o : uobs) : bool :=
   nl_eqb (q_out r) (uo_out o) && Bool.eqb (q_done r) (uo_closed o) && optl_eqb (q_cb r) (uo_cb o) &&
@@ -272,17 +278,22 @@ Definition check_case (c : case) : verdict :=
       let rs := urun (map (start 0) reqs) evs in
       verdict_of (list_eqb ureq_eqb rs obs)
                  (list_eqb (fun k o => uspec k o) reqs obs)
-  | CNode eos outs =>
+  | CNode eos outs late =>
       let evs := map fst eos in
       let f1 := {| f_shared_cancel := true; f_late_want := false |} in
       let spec := fun f => let n := nrun f node0 evs in negb (starving n) && negb (leaking n) in
       let same := fun f =>
-        list_eqb (fun w o => match o with Some l => nl_eqb (sortn w) (sortn l) | None => true end)
+        list_eqb (fun w o => match o with
+                             | Some l => nl_eqb (sortn (ndiff w late)) (sortn (ndiff l late))
+                             | None => true
+                             end)
                  (ntrace f node0 evs) (map snd eos) &&
         list_eqb (fun r o => nl_eqb (sortn (q_out r)) (sortn o)) (n_reqs (nrun f node0 evs)) outs in
-      if negb (obs_within node0 eos) then VSpecFail
-      else if same flags_off then verdict_of true (spec flags_off)
-      else if same f1 then (if spec f1 then VOk else if spec flags_off then VKnown 1 else VSpecFail)
+      let asked := flat_map (fun e => match e with NStart _ ks => ks | _ => [] end) evs in
+      let known2 := fun v => match late, v with [], _ => v | _, VOk => VKnown 2 | _, _ => v end in
+      if negb (obs_within late node0 eos) || negb (subsetb late asked) then VSpecFail
+      else if same flags_off then known2 (verdict_of true (spec flags_off))
+      else if same f1 then known2 (if spec f1 then VOk else if spec flags_off then VKnown 1 else VSpecFail)
       else VModelMismatch
   | CSys reqs wl =>
       let safe := forallb sys_safe reqs in
@@ -295,4 +306,11 @@ Definition check_case (c : case) : verdict :=
       else if live_known && leaks_known reqs 0 wl then VKnown 1
       else if live_or_overlap reqs reqs 0 && leaks_known reqs 0 wl then VKnown 3
       else VSpecFail
+  | CLag keys0 pubs out0 cancelled0 others =>
+      (* delivery: every other request got each of its keys (once); the lagging one, once drained, too *)
+      let spec :=
+        delivered_ok keys0 out0 && (cancelled0 || seteqb out0 (dedup keys0)) &&
+        forallb (fun ko => delivered_ok (fst ko) (snd ko) && seteqb (snd ko) (dedup (fst ko))) others in
+      let model := cancelled0 || nl_eqb (q_out (fold_left (fun r k => arrive k r) pubs (start 0 keys0))) out0 in
+      verdict_of model spec
   end.
